@@ -193,14 +193,16 @@ def c06(res, tier, seed):
             for msg, (rname, robj) in l_viol:
                 res.violation(msg, yv.save_replay("C06", rname, robj))
     # ---- structured family (gen/pegen.py): every table of a generated PE placed last in the file, cut inside it, counts inflated
-    import pegen, elfgen, machogen
+    import pegen, elfgen, machogen, dexgen
     fam_pe = pegen.family(r, tier)
     fam_elf = [("ELF " + l, d) for l, d in elfgen.family(r, tier)]
     res.cov["parts"]["structured_pe_mutants"] = len(fam_pe)
     res.cov["parts"]["structured_elf_mutants"] = len(fam_elf)
     fam_macho = [("Mach-O " + l, d) for l, d in machogen.family(r, tier)]
     res.cov["parts"]["structured_macho_mutants"] = len(fam_macho)
-    fam = fam_pe + fam_elf + fam_macho
+    fam_dex = [("DEX " + l, d) for l, d in dexgen.family(r, tier)]
+    res.cov["parts"]["structured_dex_mutants"] = len(fam_dex)
+    fam = fam_pe + fam_elf + fam_macho + fam_dex
     queue = [fam[bi:bi + 400] for bi in range(0, len(fam), 400)]
     bi = -1
     while queue:
@@ -253,5 +255,6 @@ def c06(res, tier, seed):
                        "program headers, .dynamic, .dynstr, .dynsym, .symtab, .strtab, .shstrtab and section headers, every chunk last x cuts, unterminated string tables at the end of the file, "
                        "every count / size / offset / name-index field set to boundary values relative to the file length; and of gen/machogen.py: thin 32/64-bit Mach-O images in both byte "
                        "orders (segments with sections, LC_UNIXTHREAD, LC_MAIN, an unknown command) and fat files with 32/64-bit arch tables, cut at every length near the end, load commands "
-                       "ending exactly at the end of the file, every count / size / offset field at boundary values")
+                       "ending exactly at the end of the file, every count / size / offset field at boundary values; and of gen/dexgen.py: a complete small DEX (id tables, class definition, class "
+                       "data with padded ULEB128 values, code items, map list), every chunk last x cuts, every header / table / ULEB field at boundary values")
     res.assumptions += ["memory safety for ALL byte strings is not decidable by this technique; a removed bounds check is detected iff a scheduled mutant reaches it (DESIGN.md section 6)"]
